@@ -47,6 +47,24 @@ def canon_tree(sd):
     return out
 
 
+_REUSED_LOGGER = None
+WORKROOT = None
+
+
+def _default_logger(fn):
+    """the Logger object a call without a logger argument uses (looked up through decorators); a fresh one if the
+    signature has no such default any more"""
+    import inspect
+    from fcp.error import Logger
+    try:
+        for prm in inspect.signature(fn).parameters.values():
+            if isinstance(prm.default, Logger):
+                return prm.default
+    except (TypeError, ValueError):
+        pass
+    return Logger({})
+
+
 def w_parse(case):
     """files: {relative path: text}; root: relative path.  Returns Ok tree / Err chain / exception."""
     import shutil
@@ -56,7 +74,14 @@ def w_parse(case):
     from fcp.error import Logger
     from fcp.specs.type import StructType, EnumType, ArrayType, DynamicArrayType, OptionalType
 
-    d = tempfile.mkdtemp(prefix="fcpfe_")
+    if case.get("workroot"):
+        # one directory per worker process, re-used for every case: files are rewritten at the same paths, as when a
+        # user edits a schema and parses it again in a long-lived process
+        d = os.path.join(case["workroot"], "w%d" % os.getpid())
+        shutil.rmtree(d, ignore_errors=True)
+        os.makedirs(d)
+    else:
+        d = tempfile.mkdtemp(prefix="fcpfe_")
     try:
         for rel, text in case["files"].items():
             p = os.path.join(d, rel)
@@ -69,12 +94,28 @@ def w_parse(case):
                 get_fcp_from_string(case["primer"], Logger({}))
             except BaseException:
                 pass
-        logger = Logger({})
+        lmode = case.get("logger", "fresh")
+        global _REUSED_LOGGER
         try:
-            if case.get("from_string"):
-                r = get_fcp_from_string(case["files"][case["root"]], logger)
+            if lmode == "default":
+                # the documented way to call the parser: no logger argument (a default object shared by all calls)
+                if case.get("from_string"):
+                    r = get_fcp_from_string(case["files"][case["root"]])
+                    logger = _default_logger(get_fcp_from_string)
+                else:
+                    r = get_fcp(os.path.join(d, case["root"]))
+                    logger = _default_logger(get_fcp)
             else:
-                r = get_fcp(os.path.join(d, case["root"]), logger)
+                if lmode == "reused":
+                    if _REUSED_LOGGER is None:
+                        _REUSED_LOGGER = Logger({})
+                    logger = _REUSED_LOGGER
+                else:
+                    logger = Logger({})
+                if case.get("from_string"):
+                    r = get_fcp_from_string(case["files"][case["root"]], logger)
+                else:
+                    r = get_fcp(os.path.join(d, case["root"]), logger)
         except BaseException as e:
             if isinstance(e, KeyboardInterrupt):
                 raise
@@ -103,6 +144,14 @@ def w_parse(case):
                 for f in s.fields:
                     walk(f.type, s.name + "." + f.name)
             return {"ok": canon_tree(fcp.to_dict()), "dangling": bad}
+        # the text the parser was given: a file is read in text mode (universal newlines: CR and CR LF arrive as LF), a
+        # string is taken as it is; imported modules are always files
+        def _as_read(rel, text):
+            if case.get("from_string") and rel == case["root"]:
+                return text
+            return text.replace("\r\n", "\n").replace("\r", "\n")
+
+        given = {rel: _as_read(rel, text) for rel, text in case["files"].items()}
         err = r.err()
         msgs = []
         for m, node, _ in err.msg:
@@ -124,9 +173,9 @@ def w_parse(case):
         cited = []
         for ent in msgs:
             if "file" in ent:
-                src = case["files"].get(ent.get("rel", ""))
+                src = given.get(ent.get("rel", ""))
                 if src is None:
-                    for rel, text in case["files"].items():
+                    for rel, text in given.items():
                         if os.path.basename(rel) == ent["file"]:
                             src = text
                 exists = src is not None and 1 <= ent["line"] <= len(src.split("\n"))
@@ -141,16 +190,25 @@ def w_parse(case):
             withfile = [ent for ent in msgs if "file" in ent]
             if len(shown) == len(withfile):
                 for (fn, ln, ln2, qt), ent in zip(shown, withfile):
-                    src = case["files"].get(ent.get("rel", ""))
+                    src = given.get(ent.get("rel", ""))
                     if src is None:
                         continue
                     lines = src.split("\n")
                     want = lines[ent["line"] - 1] if 1 <= ent["line"] <= len(lines) else None
-                    ok = want is not None and int(ln) == ent["line"] == int(ln2) and (qt or "").strip() == want.strip()
+                    ok = want is not None and int(ln) == ent["line"] == int(ln2) and (qt or "").split() == want.split()
                     quoted.append([ent.get("rel"), ent["line"], (qt or "")[:80], (want or "")[:80], bool(ok)])
         return {"err": msgs, "rendered": rend, "cited": cited, "quoted": quoted}
     finally:
-        shutil.rmtree(d, ignore_errors=True)
+        if not case.get("workroot"):
+            shutil.rmtree(d, ignore_errors=True)
+
+
+def with_workroot(jobs, rng, root):
+    """give every job the shared work root and one of the three ways of passing a logger"""
+    for j in jobs:
+        j["workroot"] = root
+        j["logger"] = rng.choice(["fresh", "fresh", "default", "reused"])
+    return jobs
 
 
 # ------------------------------------------------------------------ descriptions and printing
@@ -214,6 +272,10 @@ def gen_desc(rng, max_decls=8, used=None):
     def fresh(prefix):
         while True:
             n = prefix + rng.choice(WORDS).capitalize() + str(rng.randint(0, 99))
+            if prefix in ("S", "E") and rng.random() < 0.5:
+                # a small pool shared by structs and enums: over the descriptions parsed by one process the same name
+                # is a struct in one schema and an enum in the next
+                n = "T" + rng.choice(WORDS[:6]).capitalize() + str(rng.randint(0, 2))
             if n not in used and n not in RESERVED:
                 used.add(n)
                 return n
@@ -548,10 +610,20 @@ def run_c07(rep, rng, tier):
         for j in range(nfmt):
             style = ["canon", "dense", "wild"][j % 3] if j < 3 else "wild"
             text = render(rng, desc_toks(rng, d, canonical=(style == "canon")), style)
-            jobs.append({"files": {"main.fcp": text}, "root": "main.fcp", "from_string": j % 2 == 0})
+            job = {"files": {"main.fcp": text}, "root": "main.fcp", "from_string": j % 2 == 0}
+            if j == 1:
+                # history: the same process first parses a schema in which every struct name of this description is an
+                # enum and every enum name a struct, each of them referred to by a field
+                names = [(dc["k"], dc["name"]) for dc in d.decls if dc["k"] in ("struct", "enum")]
+                pr = ['version: "3"'] + [f"enum {nme} {{ PA = 0, PB = 1, }}" if kd == "struct" else f"struct {nme} {{ pz @ 0: u8, }}"
+                                         for kd, nme in names]
+                pr.append("struct PrimerUser {" + " ".join(f"pf{q} @ {q}: Optional[[{nme}, 2]], pg{q} @ {100 + q}: {nme},"
+                                                           for q, (_, nme) in enumerate(names)) + " }")
+                job["primer"] = "\n".join(pr) + "\n"
+            jobs.append(job)
             meta.append((k, style))
     # every .fcp file of the repository as additional inputs (thorough)
-    ires = run_cases("harness.frontend", "w_parse", jobs, timeout_s=60)
+    ires = run_cases("harness.frontend", "w_parse", with_workroot(jobs, random.Random(len(jobs)), WORKROOT), timeout_s=60)
     mres = run_driver_parallel(model_cases(jobs))
     for (k, style), job, r, m in zip(meta, jobs, ires, mres):
         d = descs[k]
@@ -678,11 +750,27 @@ def run_c08(rep, rng, tier):
                     {"name": "r0", "id": 0, "type": ("named", x["name"]), "params": []},
                     {"name": "r1", "id": 1, "type": ("opt", ("arr", ("named", x["name"]), 2)), "params": []}]})
             rootd = Desc()
-            rootd.decls = [{"k": "mod", "path": ["m0"]}, {"k": "mod", "path": ["sub", "m1"]}] + d.decls
-            job = {"files": {"main.fcp": render(rng, desc_toks(rng, rootd), "canon"),
-                             "m0.fcp": render(rng, desc_toks(rng, e0), "canon"),
-                             "sub/m1.fcp": render(rng, desc_toks(rng, e1), "canon")},
-                   "root": "main.fcp", "from_string": False}
+            if rng.random() < 0.5:
+                rootd.decls = [{"k": "mod", "path": ["m0"]}, {"k": "mod", "path": ["sub", "m1"]}] + d.decls
+                job = {"files": {"main.fcp": render(rng, desc_toks(rng, rootd), "canon"),
+                                 "m0.fcp": render(rng, desc_toks(rng, e0), "canon"),
+                                 "sub/m1.fcp": render(rng, desc_toks(rng, e1), "canon")},
+                       "root": "main.fcp", "from_string": False}
+            else:
+                # namesake modules in different directories, the second reached through another module: a/types.fcp is
+                # imported by the root, b/iface.fcp imports ITS neighbour b/types.fcp and refers to what that declares
+                e2 = gen_desc(rng, max_decls=2, used=used2)
+                t2 = [dc for dc in e2.decls if dc["k"] in ("struct", "enum")]
+                e1.decls = [{"k": "mod", "path": ["types"]}] + e1.decls
+                if t2:
+                    e1.decls.append({"k": "struct", "name": "IfaceUser" + str(rng.randint(0, 99)), "fields": [
+                        {"name": f"n{j}", "id": j, "type": wrap(("named", x2["name"])), "params": []} for j, x2 in enumerate(t2)]})
+                rootd.decls = [{"k": "mod", "path": ["a", "types"]}, {"k": "mod", "path": ["b", "iface"]}] + d.decls
+                job = {"files": {"main.fcp": render(rng, desc_toks(rng, rootd), "canon"),
+                                 "a/types.fcp": render(rng, desc_toks(rng, e0), "canon"),
+                                 "b/iface.fcp": render(rng, desc_toks(rng, e1), "canon"),
+                                 "b/types.fcp": render(rng, desc_toks(rng, e2), "canon")},
+                       "root": "main.fcp", "from_string": False}
             text = job["files"]["main.fcp"]
         if rng.random() < 0.4:
             # history: the same process first parses a schema in which the names of this case mean something else
@@ -698,11 +786,12 @@ def run_c08(rep, rng, tier):
             job["primer"] = "\n".join(pr) + "\n"
         jobs.append(job)
         meta.append((kind if bad_name else "valid", bad_name, holder["name"] if holder else None))
-    ires = run_cases("harness.frontend", "w_parse", jobs, timeout_s=60)
+    ires = run_cases("harness.frontend", "w_parse", with_workroot(jobs, random.Random(len(jobs)), WORKROOT), timeout_s=60)
     mres = run_driver_parallel(model_cases(jobs))
     for (kind, bad, holder), job, r, m in zip(meta, jobs, ires, mres):
         text = job["files"]["main.fcp"] if len(job["files"]) == 1 else json.dumps(job["files"], sort_keys=True)
-        rep.hist("layout", "single file" if len(job["files"]) == 1 else "behind two module imports with a cross-kind name clash")
+        rep.hist("layout", "single file" if len(job["files"]) == 1 else ("behind two module imports with a cross-kind name clash"
+                           if len(job["files"]) == 3 else "namesake modules in two directories, one reached through another module"))
         rep.count(text)
         rep.hist("reference_kind", kind)
         rep.hist("history", "after a primer schema with clashing names" if job.get("primer") else "fresh")
@@ -735,8 +824,14 @@ def run_c08(rep, rng, tier):
         # correspondence
         mo = "ok" if "ok" in m else "err"
         io = "ok" if "ok" in o else "err"
-        if mo != io or ("ok" in m and canon_model_tree(m["ok"]) != o["ok"]) or \
-                ("err" in m and [e["text"] for e in m["err"]] != [e["text"] for e in o["err"]]):
+        # error values: the property fixes WHAT an error names (checked above on the implementation's own text) and the
+        # reference front end fixes verdict, tree and cited positions; the wording of messages is the maintainers' business
+        # and is only recorded
+        if "err" in m and io == "err" and [e["text"] for e in m["err"]] != [e["text"] for e in o["err"]]:
+            rep.hist("error_wording", "differs from the reference front end's messages")
+        pos_m = [(e.get("file"), e.get("line")) for e in m.get("err", []) if e.get("file") is not None]
+        pos_o = [(e.get("file"), e.get("line")) for e in o.get("err", []) if e.get("file") is not None] if io == "err" else []
+        if mo != io or ("ok" in m and canon_model_tree(m["ok"]) != o["ok"]) or ("err" in m and pos_m != pos_o):
             rep.cov["disagreements_checked"] += 1
             rep.violation(dict(base, kind2="correspondence", model=m, observed=o if io == "err" else "ok-tree",
                                what="implementation and reference front end disagree"), no_input=True)
@@ -859,7 +954,7 @@ def run_c20(rep, rng, tier):
         jobs.append({"files": files, "root": "main.fcp"})
         jobs.append({"files": single, "root": "main.fcp"})
         meta.append((inject, victim, len(mods)))
-    ires = run_cases("harness.frontend", "w_parse", jobs, timeout_s=60)
+    ires = run_cases("harness.frontend", "w_parse", with_workroot(jobs, random.Random(len(jobs)), WORKROOT), timeout_s=60)
     mres = run_driver_parallel(model_cases(jobs))
     for k, (inject, victim, nmods) in enumerate(meta):
         a, b = ires[2 * k], ires[2 * k + 1]
@@ -1006,7 +1101,19 @@ def run_c11(rep, rng, tier):
             files["a.fcp"] = module
         inputs.append((json.dumps(files, sort_keys=True), "module-error"))
         jobs.append({"files": files, "root": "main.fcp", "from_string": False})
-    ires = run_cases("harness.frontend", "w_parse", jobs, timeout_s=60)
+    # other line-ending conventions: the same texts with CR or CR LF between the lines (and a stray CR inside), an error of
+    # some stage on a late line; whatever the parser makes of a CR, the lines it cites must exist in the text it was given
+    for _ in range(n // 10):
+        d = gen_desc(rng, max_decls=3)
+        body = render(rng, desc_toks(rng, d), "canon") + "\n" + rng.choice(bad_tails + ["", ""])
+        sep = rng.choice(["\r", "\r\n", "\r", "\n\r"])
+        text = body.replace("\n", sep)
+        if rng.random() < 0.3:
+            k = rng.randrange(len(body) + 1)
+            text = body[:k] + "\r" + body[k:]
+        inputs.append((text, "line-endings"))
+        jobs.append({"files": {"main.fcp": text}, "root": "main.fcp", "from_string": rng.random() < 0.6})
+    ires = run_cases("harness.frontend", "w_parse", with_workroot(jobs, random.Random(len(jobs)), WORKROOT), timeout_s=60)
     mres = run_driver_parallel(model_cases(jobs))
     for (text, stream), job, r, m in zip(inputs, jobs, ires, mres):
         rep.count(text)
@@ -1054,7 +1161,14 @@ def run(prop, tier, replay=None):
     rep = Report(prop, tier)
     rng = random.Random(seed() * 15485863 + int(prop[1:]))
     rep.check_proofs()
-    {"C07": run_c07, "C08": run_c08, "C11": run_c11, "C20": run_c20}[prop](rep, rng, tier)
+    import shutil
+    import tempfile
+    global WORKROOT
+    WORKROOT = tempfile.mkdtemp(prefix="fcpfe_root_")
+    try:
+        {"C07": run_c07, "C08": run_c08, "C11": run_c11, "C20": run_c20}[prop](rep, rng, tier)
+    finally:
+        shutil.rmtree(WORKROOT, ignore_errors=True)
     rep.cov["rule"] = {
         "C07": "descriptions over every production (nested types to depth 3, parameters, renames, signal blocks, all value forms, "
                "services, devices) printed under canonical / dense / random formatting (spaces, tabs, newlines, // and /* */ "
